@@ -64,6 +64,25 @@ def box_of(b, d):
     return lo, hi
 
 
+def scheme_reference(b, n, rng):
+    """n points by the proposal scheme of `C08_uniform`, from the members' own `sample` / `contains` and an independent generator"""
+    from scipy.special import logsumexp
+    mem = b.bounds
+    lv = np.array([float(m.log_v) for m in mem])
+    p = np.exp(lv - logsumexp(lv))
+    out, total = [], 0
+    while total < n:
+        k = rng.multinomial(50000, p)
+        pts = np.vstack([np.asarray(m.sample(int(kk))).reshape(int(kk), -1) for m, kk in zip(mem, k)])
+        if b.cube is not None:
+            pts = pts[np.asarray(b.cube.contains(pts), dtype=bool)]
+        mult = np.sum([np.asarray(m.contains(pts), dtype=bool) for m in mem], axis=0)
+        keep = rng.random(len(pts)) * mult < 1.0
+        out.append(rng.permutation(pts[keep]))      # the blocks are ordered by member; the last one is truncated below
+        total += int(np.sum(keep))
+    return np.vstack(out)[:n]
+
+
 def check_case(case):
     import warnings
     warnings.filterwarnings('ignore')
@@ -130,6 +149,15 @@ def check_case(case):
         sig_r = sum((np.asarray(m.contains(q_r), dtype=np.int64) << i) for i, m in enumerate(mem))
         k = 1 << len(mem)
         two_sample('uniformity-per-overlap-signature', np.bincount(sig_s, minlength=k), np.bincount(sig_r, minlength=k), len(S), len(R))
+    # ---- the real Union.sample against the *scheme* the theorems are about, re-implemented here from the member primitives
+    #      (member proportional to volume, uniform in the member, cube cut, keep with probability 1/multiplicity): resolves overlap
+    #      regions far too small for the box reference (members of very different volumes)
+    if isinstance(b, Union) and 2 <= len(mem) <= 12:
+        R2 = scheme_reference(b, len(S), np.random.default_rng(case['seed'] + 23))
+        sig_2 = sum((np.asarray(m.contains(R2), dtype=np.int64) << i) for i, m in enumerate(mem))
+        sig_s2 = sum((np.asarray(m.contains(S), dtype=np.int64) << i) for i, m in enumerate(mem))
+        k = 1 << len(mem)
+        two_sample('uniformity-per-overlap-signature-vs-scheme', np.bincount(sig_s2, minlength=k), np.bincount(sig_2, minlength=k), len(S), len(R2))
     # ---- uniformity per grid cell
     g = {1: 40, 2: 8, 3: 5}.get(d, 3)
     def cells(P):
@@ -174,6 +202,8 @@ def cases(tier, seed):
             add(cls='Union', d=d, member=member, cloud='face', splits=2, n=200, unit=True)        # cut by cube faces
             add(cls='Union', d=d, member=member, cloud='two', splits=1, n=160, unit=True)
         add(cls='Union', d=d, member='E', cloud='curved', splits=3, n=200, unit=False)
+    # a broad mode with a sharp spike inside it: member volumes differ by ~10^3, the small member often gets none of the 1000 proposals of a round
+    add(cls='Union', d=2, member='E', cloud='spike', splits=1, n=800, unit=True, n_samples=9000000, n_ref=1000000)
     for nets in (0, 1):
         for periodic, cl in ((None, 'curved'), ([0], 'wrapped'), (None, 'face')):
             add(cls='Nautilus', d=2, nets=nets, periodic=periodic, cloud=cl, split=True, n=260, pool=(nets == 0 and cl in ('curved', 'face')))
